@@ -36,16 +36,36 @@ func durationConst(d time.Duration) physical.TableValuedFunctionArgument {
 	}
 }
 
+// tvfTime: an arbitrary time (SYMT=1) or one of a few sample times (SYMT=0; none of the code under
+// test can panic depending on the time value, and symbolic times make every comparison a
+// division-by-1e9 query).
+func tvfTime(name string) time.Time {
+	if zzverif.Param("SYMT") == 1 {
+		return octosql.VerifNDScalar(name, octosql.VKTime, 0).Time
+	}
+	samples := []time.Time{{}, time.Unix(0, 0), time.Unix(1000000000, 5).UTC(), time.Unix(-1, 999999999), time.Unix(253402300800, 0).UTC(), time.Unix(1000000003, 0)}
+	return samples[zzverif.Choice(name, len(samples))]
+}
+
+// tvfDuration: an arbitrary duration (SYM=1) or one of a few samples around the edge cases.
+func tvfDuration(name string, sym bool) time.Duration {
+	if sym {
+		return time.Duration(zzverif.Int64(name))
+	}
+	samples := []time.Duration{0, 1, -1, 7, time.Millisecond, -time.Second, time.Hour, -1 << 63, 1<<63 - 1}
+	return samples[zzverif.Choice(name, len(samples))]
+}
+
 // tvfSource: a table (id Int, t Time) with 0..rows arbitrary records and a watermark in between.
 func tvfSource(rows int) (physical.TableValuedFunctionArgument, physical.TableValuedFunctionArgument) {
 	n := zzverif.Choice("rows", rows+1)
 	var msgs []vx.Msg
 	for i := 0; i < n; i++ {
-		tv := octosql.VerifNDScalar(fmt.Sprintf("r%d.t", i), octosql.VKTime, 0)
+		tv := octosql.NewTime(tvfTime(fmt.Sprintf("r%d.t", i)))
 		rec := execution.NewRecord([]octosql.Value{octosql.NewInt(int64(i)), tv}, zzverif.Bool(fmt.Sprintf("r%d.retraction", i)), time.Time{})
 		msgs = append(msgs, vx.Msg{Kind: vx.MsgRecord, Rec: rec})
 		if i == 0 {
-			msgs = append(msgs, vx.Msg{Kind: vx.MsgWatermark, Watermark: octosql.VerifNDScalar("wm", octosql.VKTime, 0).Time})
+			msgs = append(msgs, vx.Msg{Kind: vx.MsgWatermark, Watermark: tvfTime("wm")})
 		}
 	}
 	fields := []physical.SchemaField{{Name: "id", Type: octosql.Int}, {Name: "t", Type: octosql.Time}}
@@ -76,13 +96,14 @@ func tvfEnv() physical.Environment {
 // arbitrary durations (0 and negatives included) over arbitrary record times never panics.
 func VerifC07MaxDiffWatermark() {
 	table, descriptor := tvfSource(zzverif.Param("ROWS"))
-	maxDiff := time.Duration(zzverif.Int64("max_diff"))
+	maxDiff := tvfDuration("max_diff", zzverif.Param("SYMD") == 1)
 	args := map[string]physical.TableValuedFunctionArgument{
 		"source": table, "time_field": descriptor, "max_diff": durationConst(maxDiff),
 	}
 	resolution := time.Second
 	if zzverif.Choice("has_resolution", 2) == 1 {
-		resolution = time.Duration(zzverif.Int64("resolution"))
+		// x / resolution * resolution over a symbolic 64-bit divisor is out of the solvers' reach
+		resolution = tvfDuration("resolution", zzverif.Param("SYMRES") == 1)
 		args["resolution"] = durationConst(resolution)
 	}
 	node, err := table_valued_functions.MaxDiffWatermark.Descriptors[0].Materialize(context.Background(), tvfEnv(), args)
@@ -94,17 +115,19 @@ func VerifC07MaxDiffWatermark() {
 	zzverif.Reach("done")
 }
 
-// VerifC07Tumble: tumble(source, window_length[, time_field][, offset]) with arbitrary durations.
+// VerifC07Tumble: tumble(source, window_length[, time_field][, offset]) with an arbitrary offset
+// (SYMD=1) and an arbitrary (SYMW=1) or sampled window length (Time.Truncate over a symbolic
+// divisor is a 64-step long division the solvers do not get through).
 func VerifC07Tumble() {
 	table, descriptor := tvfSource(zzverif.Param("ROWS"))
 	args := map[string]physical.TableValuedFunctionArgument{
-		"source": table, "window_length": durationConst(time.Duration(zzverif.Int64("window_length"))),
+		"source": table, "window_length": durationConst(tvfDuration("window_length", zzverif.Param("SYMW") == 1)),
 	}
 	if zzverif.Choice("has_time_field", 2) == 1 {
 		args["time_field"] = descriptor
 	}
 	if zzverif.Choice("has_offset", 2) == 1 {
-		args["offset"] = durationConst(time.Duration(zzverif.Int64("offset")))
+		args["offset"] = durationConst(tvfDuration("offset", zzverif.Param("SYMD") == 1))
 	}
 	node, err := table_valued_functions.Tumble.Descriptors[0].Materialize(context.Background(), tvfEnv(), args)
 	zzverif.Assert(err == nil, "materialize-no-error")
